@@ -45,6 +45,12 @@ def _impl():
     return fl, ser, ca
 
 
+def clist(items) -> str:
+    """Explicit cons-chain: Coq parses it ~5x faster than the [a; b] notation."""
+    items = list(items)
+    return "(" + "".join(f"cons {x} (" for x in items) + "nil" + ")" * len(items) + ")"
+
+
 def cstr(s: str) -> str:
     return C.coq_string(s.encode("utf-8").decode("latin-1"))
 
@@ -105,17 +111,17 @@ def head_and_kids(obj):
     if isinstance(obj, functools.partial):
         return f"(HPartial {cstr(getattr(obj.func, '__name__', '?'))})", list(obj.args)
     if isinstance(obj, dict):
-        return "(HDict " + C.coq_list([coq_key(k) for k in obj]) + ")", list(obj.values())
+        return "(HDict " + clist([coq_key(k) for k in obj]) + ")", list(obj.values())
     if dataclasses.is_dataclass(obj) and not isinstance(obj, type):
         fs = list(obj.__dataclass_fields__.keys())
-        return f"(HData {cstr(type(obj).__name__)} " + C.coq_list([cstr(f) for f in fs]) + ")", [getattr(obj, f) for f in fs]
+        return f"(HData {cstr(type(obj).__name__)} " + clist([cstr(f) for f in fs]) + ")", [getattr(obj, f) for f in fs]
     if isinstance(obj, RailsConfig):
         return "(HRailsConfig 0)", []
     if isinstance(obj, ca.SpecType):
         return f"(HSpecType {cstr(obj.value)})", []
     if isinstance(obj, fl.Action):
         d = obj.to_dict()
-        return "(HAction " + C.coq_list([cstr(k) for k in d]) + ")", list(d.values())
+        return "(HAction " + clist([cstr(k) for k in d]) + ")", list(d.values())
     if isinstance(obj, datetime):
         return f"(HDatetime {cstr(obj.isoformat())})", []
     if isinstance(obj, Enum):
@@ -158,12 +164,12 @@ def render_graph(root, max_nodes=6000):
             raise Unrenderable("too deep")
         hd, kids = head_and_kids(obj)
         keep.append(kids)
-        rows[n] = f"({n}, mk {hd} " + C.coq_list([val(k) for k in kids]) + ")"
+        rows[n] = f"({n}, mk {hd} " + clist([val(k) for k in kids]) + ")"
         stack_guard[0] -= 1
         return n
 
     r = val(root)
-    return C.coq_list(rows), r, idmap, keep
+    return clist(rows), r, idmap, keep
 
 
 def coq_json(j, idmap):
@@ -179,7 +185,7 @@ def coq_json(j, idmap):
     if isinstance(j, str):
         return f"(JStr {cstr(j)})"
     if isinstance(j, list):
-        return "(JArr " + C.coq_list([coq_json(x, idmap) for x in j]) + ")"
+        return "(JArr " + clist([coq_json(x, idmap) for x in j]) + ")"
     items = []
     wrapper = "__type" in j
     for k, v in j.items():
@@ -191,7 +197,7 @@ def coq_json(j, idmap):
             items.append('("value", JInt 0)')
         else:
             items.append(f"({cstr(k)}, {coq_json(v, idmap)})")
-    return "(JObj " + C.coq_list(items) + ")"
+    return "(JObj " + clist(items) + ")"
 
 
 def canon_py(root, guide=None):
@@ -235,6 +241,1062 @@ def canon_py(root, guide=None):
             kids = ordered + rest
         keep.append(kids)
         cs = [go(k, gk[i] if gk is not None else None) for i, k in enumerate(kids)]
-        return f"(CNew {n} {hd} " + C.coq_list(cs) + ")"
+        return f"(CNew {n} {hd} " + clist(cs) + ")"
 
     return go(root, guide)
+
+
+# ---------------------------------------------------------------------------------------
+# X1: generated object graphs built from the REAL classes
+
+
+def gen_value(rng, depth, pool):
+    """A value a flow variable can hold.  `pool` collects objects that may be shared."""
+    r = rng.random()
+    if pool and r < 0.18:
+        return rng.choice(pool)
+    if depth <= 0 or r < 0.45:
+        k = rng.randrange(9)
+        if k == 0:
+            return None
+        if k == 1:
+            return rng.choice([True, False])
+        if k == 2:
+            return rng.choice([0, 1, -3, 12, 10**12])
+        if k == 3:
+            return rng.choice([0.5, -2.25, 1e300, 3.0])
+        if k == 4:
+            v = re.compile(rng.choice(["a", "a.", "^b$", "c|d"]), rng.choice([0, 0, re.I]))
+            pool.append(v)
+            return v
+        return rng.choice(["", "a", "hello world", "__type", "ref", 'q"uote', "ünï"])
+    if r < 0.6:
+        v = [gen_value(rng, depth - 1, pool) for _ in range(rng.randint(0, 3))]
+    elif r < 0.75:
+        keys = rng.sample(["a", "b", "k", "__id", "value", "__type", "x y"], rng.randint(0, 3))
+        v = {k: gen_value(rng, depth - 1, pool) for k in keys}
+        if rng.random() < 0.25:
+            for k in rng.sample([1, 2, 7, False, None], rng.randint(1, 2)):
+                v[k] = gen_value(rng, depth - 1, pool)
+    elif r < 0.85:
+        v = set()
+        for _ in range(rng.randint(0, 3)):
+            e = rng.choice([1, 2, "a", "b", None, 2.5, (1, "t"), ("u",)])
+            v.add(e)
+    elif r < 0.93:
+        v = tuple(gen_value(rng, depth - 1, pool) for _ in range(rng.randint(0, 3)))
+    else:
+        from collections import deque
+
+        v = deque(gen_value(rng, depth - 1, pool) for _ in range(rng.randint(0, 2)))
+    pool.append(v)
+    return v
+
+
+def gen_state_graph(rng, kinds):
+    """A State built from the real dataclasses: flow states with heads (and callbacks), actions
+    referenced from several places, events, contexts with shared sub-objects."""
+    from collections import deque
+    from functools import partial
+
+    fl, ser, ca = _impl()
+    from nemoguardrails.colang.v2_x.runtime import statemachine as sm
+    from nemoguardrails.colang.v2_x.runtime.eval import ComparisonExpression
+
+    pool = []
+    n_flows = rng.randint(1, 3)
+    state = fl.State(flow_states={}, flow_configs={})
+    acts = []
+    for a in range(rng.randint(0, 2)):
+        act = fl.Action("MyAction%d" % a, {"x": gen_value(rng, 1, pool)} if rng.random() < 0.7 else {}, flow_uid="f0")
+        act.uid = "act%d" % a
+        act.status = rng.choice(list(fl.ActionStatus))
+        if rng.random() < 0.5:
+            act.context = {"k": gen_value(rng, 1, pool)}
+        state.actions[act.uid] = act
+        acts.append(act)
+        pool.append(act)
+    events = []
+    for e in range(rng.randint(0, 2)):
+        kind = rng.randrange(3)
+        if kind == 0:
+            ev = fl.Event("Ev%d" % e, {"a": gen_value(rng, 1, pool)})
+        elif kind == 1:
+            ev = fl.ActionEvent("MyActionFinished", {"r": 1}, action_uid="act0", action=acts[0] if acts else None)
+        else:
+            ev = fl.InternalEvent("FlowFinished", {"flow_id": "f"}, matching_scores=[0.5, 1.0])
+        events.append(ev)
+        pool.append(ev)
+    fss = []
+    for f in range(n_flows):
+        uid = "(f%d)u%d" % (f, f)
+        fs = fl.FlowState(uid=uid, flow_id="f%d" % f, loop_id=rng.choice([None, "L"]), hierarchy_position="0.%d" % f)
+        for hn in range(rng.randint(1, 2)):
+            h = fl.FlowHead(uid="h%d_%d" % (f, hn), flow_state_uid=uid, matching_scores=[1.0] if rng.random() < 0.5 else [],
+                            scope_uids=["s"] if rng.random() < 0.3 else [])
+            h._position = rng.randint(0, 5)
+            h._status = rng.choice(list(fl.FlowHeadStatus))
+            if rng.random() < 0.9:
+                h.position_changed_callback = partial(sm._flow_head_changed, state, fs)
+                h.status_changed_callback = partial(sm._flow_head_changed, state, fs)
+            else:
+                kinds["head_without_callbacks"] = kinds.get("head_without_callbacks", 0) + 1
+            fs.heads[h.uid] = h
+        fs._status = rng.choice(list(fl.FlowStatus))
+        fs.activated = rng.choice([0, 0, 1])
+        if rng.random() < 0.4:
+            fs.scopes["sc"] = ([uid], [a.uid for a in acts])
+        for v in range(rng.randint(0, 4)):
+            fs.context["v%d" % v] = gen_value(rng, 3, pool)
+        if acts and rng.random() < 0.7:
+            fs.context["act"] = rng.choice(acts)
+            fs.action_uids.append(fs.context["act"].uid)
+        if events and rng.random() < 0.5:
+            fs.context["ev"] = rng.choice(events)
+        if fss and rng.random() < 0.5:
+            fs.context["ref"] = rng.choice(fss)              # reference to an earlier flow state (acyclic)
+            fs.parent_uid = fs.context["ref"].uid
+        fs.arguments = {"p": gen_value(rng, 1, pool)} if rng.random() < 0.4 else {}
+        if rng.random() < 0.5:
+            fs.status_updated = fss[0].status_updated if fss else fs.status_updated
+        state.flow_states[uid] = fs
+        state.flow_id_states.setdefault(fs.flow_id, []).append(fs)
+        fss.append(fs)
+    state.main_flow_state = fss[0]
+    state.context = {"g": gen_value(rng, 2, pool)} if rng.random() < 0.6 else {}
+    state.last_events = [rng.choice(events)] if events and rng.random() < 0.6 else []
+    state.outgoing_events = [{"type": "Out", "v": gen_value(rng, 1, pool)}] if rng.random() < 0.4 else []
+    if rng.random() < 0.3:
+        state.internal_events = deque(events[:1])
+    for fs in fss:
+        for h in fs.heads.values():
+            if rng.random() < 0.6:
+                state.event_matching_heads.setdefault("Ev", []).append((fs.uid, h.uid))
+                state.event_matching_heads_reverse_map[fs.uid + h.uid] = "Ev"
+    # shapes outside `supported`
+    q = rng.random()
+    if q < 0.05:
+        fss[-1].context["cmp"] = ComparisonExpression(lambda v: v < 5, 5)
+        kinds["unsupported_object"] = kinds.get("unsupported_object", 0) + 1
+    elif q < 0.10:
+        lst = [1]
+        lst.append(fss[0] if rng.random() < 0.5 else lst)
+        fss[0].context["cyc"] = lst
+        kinds["cyclic"] = kinds.get("cyclic", 0) + 1
+    elif q < 0.2 and fss:
+        shared = [1, 2]
+        fss[0].context["la"] = shared
+        fss[-1].context["lb"] = shared
+        fss[0].context["lc"] = shared
+        kinds["shared_list"] = kinds.get("shared_list", 0) + 1
+    return state
+
+
+def x1_case(root, mode):
+    """Run the real encoder/decoder on `root`; -> (coq case term, info) ; mode 0/1."""
+    fl, ser, ca = _impl()
+    heap, r, idmap, keep = render_graph(root)
+    info = {"nodes": len(idmap), "enc": "ok", "dec": "ok"}
+    cj = cd = "None"
+    decoded = None
+    d = js = None
+    try:
+        if mode == 1:
+            js = ser.state_to_json(root)
+            d = json.loads(js)
+        else:
+            d = ser.encode_to_dict(root, {})
+            js = json.dumps(d)
+            d = json.loads(js)
+    except RecursionError:
+        info["enc"] = "RecursionError"
+    except Exception as e:  # noqa
+        info["enc"] = type(e).__name__ + ":" + str(e)[:60]
+    if info["enc"] == "ok":
+        cj = "(Some " + coq_json(d, idmap) + ")"
+        try:
+            decoded = ser.json_to_state(js) if mode == 1 else ser.decode_from_dict(json.loads(js), {})
+            cd = "(Some " + canon_py(decoded, root) + ")"
+        except RecursionError:
+            info["dec"] = "RecursionError"
+        except Exception as e:  # noqa
+            info["dec"] = type(e).__name__ + ":" + str(e)[:60]
+    term = f"({heap}, {r}, {mode}, {cj}, {cd})"
+    return term, info, decoded
+
+
+# ---------------------------------------------------------------------------------------
+# X2: behavioural oracle on the real interpreter (runs in child processes)
+
+VALUE_EXPRS = [
+    '1', '2.5', '"txt"', 'None', 'True', '[1, 2]', '{"a", "b"}', '{"k": [1, {"z": 2}]}',
+    '{1: "x", 2: "y"}', 'regex("a.")', '[regex("b"), "c"]', '{"s": {"p", "q"}}', '[[1], [2, [3]]]',
+    '{"n": None, "f": 0.5}', '[]', '{"a"}',
+]
+PATTERNS = ['', 'x="a"', 'x=regex("a")', 'x=1', 'x={"a"}', 'x=[1]']
+EVENT_ALPHABET = [
+    {"type": "E1", "x": "a"}, {"type": "E1", "x": 1}, {"type": "E2"}, {"type": "E3"},
+    {"type": "MyActionFinished", "action_uid": "@0"}, {"type": "MyActionFinished", "action_uid": "@1"},
+    {"type": "E1", "x": ["a"]},
+]
+
+HELPERS = '''flow f1 $p
+  match E1()
+  send F1Out(v=len($p))
+  return $p
+
+flow f2
+  start MyAction(x=1) as $a
+  match $a.Finished()
+  send F2Done()
+
+flow f3 $p
+  $q = $p
+  match E2()
+  send F3Out(v=$q)
+
+flow f4 $act
+  match $act.Finished()
+  send F4Fin(n=$act.name)
+
+flow g1
+  match E3()
+  send G1()
+
+flow g2
+  match E1(x="a")
+  $c = 1
+  send G2(c=$c)
+'''
+
+
+def gen_program(rng, stats):
+    """A Colang 2 program: variables holding sets, regexes, nested containers, references to
+    flows / actions / events; start / await / activate / when; pending actions."""
+    lines = ["flow main"]
+    vars_, refs, acts, evs = [], [], [], []
+    n_out = [0]
+
+    def out(expr):
+        n_out[0] += 1
+        return f"  send Out{n_out[0]}(v={expr})"
+
+    def use_expr():
+        c = []
+        if vars_:
+            v = rng.choice(vars_)
+            c += [f"${v}", f"len(${v})", f"type(${v})", f"is_regex(${v})", f"str(${v}) + \"!\""]
+        if refs:
+            c += [f"${rng.choice(refs)}.flow_id", f"${rng.choice(refs)}.hierarchy_position"]
+        if acts:
+            c += [f"${rng.choice(acts)}.name"]
+        if evs:
+            c += [f"${rng.choice(evs)}.name"]
+        return rng.choice(c) if c else "1"
+
+    n = rng.randint(4, 9)
+    for k in range(n):
+        r = rng.random()
+        if r < 0.22:
+            v = f"v{len(vars_)}"
+            lines.append(f"  ${v} = {rng.choice(VALUE_EXPRS)}")
+            vars_.append(v)
+            stats["assign"] = stats.get("assign", 0) + 1
+        elif r < 0.27 and vars_:
+            v = f"v{len(vars_)}"
+            lines.append(f"  ${v} = ${rng.choice(vars_)}")
+            vars_.append(v)
+            stats["alias"] = stats.get("alias", 0) + 1
+        elif r < 0.30 and vars_:
+            lines.append(f"  $tmp{k} = ${rng.choice(vars_)}.append({rng.choice(['9', '\"z\"'])})")
+            stats["mutate"] = stats.get("mutate", 0) + 1
+        elif r < 0.42:
+            f = rng.choice(["f1", "f3"])
+            arg = f"${rng.choice(vars_)}" if vars_ else rng.choice(VALUE_EXPRS[:8])
+            ref = f"r{len(refs)}"
+            lines.append(f"  start {f} {arg} as ${ref}")
+            refs.append(ref)
+            stats["start_flow"] = stats.get("start_flow", 0) + 1
+        elif r < 0.48:
+            ref = f"r{len(refs)}"
+            lines.append(f"  start f2 as ${ref}")
+            refs.append(ref)
+            stats["start_flow_with_action"] = stats.get("start_flow_with_action", 0) + 1
+        elif r < 0.58:
+            a = f"a{len(acts)}"
+            arg = rng.choice(VALUE_EXPRS) if not vars_ or rng.random() < 0.5 else f"${rng.choice(vars_)}"
+            lines.append(f"  start MyAction(p={arg}) as ${a}")
+            acts.append(a)
+            stats["start_action"] = stats.get("start_action", 0) + 1
+            if rng.random() < 0.4:
+                lines.append(f"  start f4 ${a}")
+                stats["flow_given_action_ref"] = stats.get("flow_given_action_ref", 0) + 1
+        elif r < 0.64:
+            lines.append(f"  activate {rng.choice(['g1', 'g2'])}")
+            stats["activate"] = stats.get("activate", 0) + 1
+        elif r < 0.80:
+            e = f"e{len(evs)}"
+            ev = rng.choice(["E1", "E2", "E3"])
+            pat = rng.choice(PATTERNS) if ev == "E1" else ""
+            if rng.random() < 0.4:
+                lines.append(f"  match {ev}({pat}) as ${e}")
+                evs.append(e)
+            else:
+                lines.append(f"  match {ev}({pat})")
+            stats["match"] = stats.get("match", 0) + 1
+        elif r < 0.85 and refs:
+            lines.append(f"  match ${rng.choice(refs)}.Finished()")
+            stats["match_flow_finished"] = stats.get("match_flow_finished", 0) + 1
+        elif r < 0.89 and acts:
+            lines.append(f"  match ${rng.choice(acts)}.Finished()")
+            stats["match_action_finished"] = stats.get("match_action_finished", 0) + 1
+        elif r < 0.93:
+            lines.append("  when E2()")
+            lines.append("  " + out(use_expr()))
+            lines.append("  or when E3()")
+            lines.append("  " + out(use_expr()))
+            stats["when"] = stats.get("when", 0) + 1
+        elif r < 0.96 and vars_:
+            lines.append(f"  await f1 ${rng.choice(vars_)}")
+            stats["await"] = stats.get("await", 0) + 1
+        else:
+            lines.append(out(use_expr()))
+            stats["send"] = stats.get("send", 0) + 1
+    lines.append(out(use_expr()))
+    lines.append("  match Never()")
+    return HELPERS + "\n" + "\n".join(lines) + "\n"
+
+
+# programs that exercise the recorded defect classes deterministically (always run)
+PROBES = {
+    "regex-variable": 'flow main\n  $r = regex("a")\n  match E1(x=$r)\n  send Out1(v=1)\n  match Never()\n',
+    "int-keys": 'flow main\n  $d = {1: "a", 2: "b"}\n  match E2()\n  send Out1(v=$d[1])\n  match Never()\n',
+    "action-set-argument": 'flow main\n  start MyAction(tags={"a", "b"}) as $a0\n  match E2()\n  send Out1(v=$a0.name)\n  match Never()\n',
+    "comparison-expression": 'flow main\n  $c = less_than(5)\n  match E1(x=$c)\n  send Out1(v=1)\n  match Never()\n',
+    "cyclic-list": 'flow main\n  $l = [1]\n  $q = $l.append($l)\n  match E2()\n  send Out1(v=len($l))\n  match Never()\n',
+    "shared-list": 'flow main\n  $a = [1]\n  $b = $a\n  match E2()\n  $x = $a.append(2)\n  send Out1(v=$b)\n  match Never()\n',
+    "two-flows-one-action": HELPERS + '\nflow main\n  start MyAction(x=1) as $a0\n  start f4 $a0\n  start f4 $a0\n  match E2()\n  send Out1(v=$a0.name)\n  match $a0.Finished()\n  send Out2(v=1)\n  match Never()\n',
+    "set-variable": 'flow main\n  $s = {"a", "b"}\n  match E2()\n  send Out1(v=len($s), t=type($s))\n  match E1(x=$s)\n  send Out2(v=1)\n  match Never()\n',
+    "finished-child-then-idle": HELPERS + '\nflow main\n  start f1 [1] as $r0\n  match $r0.Finished()\n  send Out1(v=$r0.flow_id)\n  match E2()\n  send Out2(v=$r0.flow_id)\n  start f1 [2] as $r1\n  match $r1.Finished()\n  send Out3(v=1)\n  match Never()\n',
+    "activated-restarts": HELPERS + '\nflow main\n  activate g1\n  activate g2\n  match E2()\n  send Out1(v=1)\n  match Never()\n',
+}
+
+_UUID_RE = re.compile(r"[0-9a-f]{8}-[0-9a-f]{4}-[0-9a-f]{4}-[0-9a-f]{4}-[0-9a-f]{12}|\([a-z_0-9 ]+\)[0-9a-f]{4,5}-[0-9a-f]{2,}")
+
+
+class _Renamer:
+    def __init__(self):
+        self.m = {}
+
+    def sub(self, s):
+        def rep(mo):
+            k = mo.group(0)
+            if k not in self.m:
+                self.m[k] = "@uid%d" % len(self.m)
+            return self.m[k]
+
+        return _UUID_RE.sub(rep, s)
+
+    def canon(self, x):
+        if isinstance(x, str):
+            return self.sub(x)
+        if isinstance(x, dict):
+            return {self.canon(k) if isinstance(k, str) else repr(k): self.canon(v) for k, v in x.items()
+                    if k not in ("uid", "event_created_at", "source_uid")}
+        if isinstance(x, (list, tuple)):
+            return [self.canon(v) for v in x]
+        if isinstance(x, (set, frozenset)):
+            return {"__set__": sorted((json.dumps(self.canon(v), sort_keys=True, default=repr) for v in x))}
+        if isinstance(x, re.Pattern):
+            return {"__regex__": x.pattern}
+        if x is None or isinstance(x, (bool, int, float)):
+            return x
+        return {"__obj__": type(x).__name__}
+
+
+class _Clock:
+    """Controllable replacement of `datetime` in statemachine.py / flows.py (harness process only)."""
+
+    offset = 0.0
+
+    @classmethod
+    def install(cls):
+        import datetime as dtm
+
+        from nemoguardrails.colang.v2_x.runtime import flows as fl
+        from nemoguardrails.colang.v2_x.runtime import statemachine as sm
+
+        base = dtm.datetime.now()
+
+        class FakeDT(dtm.datetime):
+            @classmethod
+            def now(klass, tz=None):
+                return base + dtm.timedelta(seconds=cls.offset)
+
+        sm.datetime = FakeDT
+        fl.datetime = FakeDT
+
+
+def _index_invariant(state):
+    """Hypothesis of C11_cleanup_commutes_partial, checked on real states: every entry of the
+    matcher index names a head of an existing flow state that is not done."""
+    from nemoguardrails.colang.v2_x.runtime.statemachine import _is_done_flow
+
+    bad = []
+    for name, heads in state.event_matching_heads.items():
+        for fuid, huid in heads:
+            fs = state.flow_states.get(fuid)
+            if fs is None or huid not in fs.heads or _is_done_flow(fs):
+                bad.append((name, fuid, huid, None if fs is None else fs.status.name))
+    return bad
+
+
+def _shape_flags(state):
+    """Why a state may be outside `supported`: shared lists, cycles, unsupported objects."""
+    import functools
+
+    seen, onpath = {}, set()
+    flags = {"shared_list": False, "cyclic": False, "nonstr_keys": False, "other": set()}
+
+    def go(x, depth):
+        if is_prim(x) or depth > 300:
+            return
+        if id(x) in onpath:
+            flags["cyclic"] = True
+            return
+        if id(x) in seen:
+            if isinstance(x, list):
+                flags["shared_list"] = True
+            return
+        seen[id(x)] = x
+        if isinstance(x, functools.partial):
+            return
+        if isinstance(x, dict) and any(not isinstance(k, str) for k in x):
+            flags["nonstr_keys"] = True
+        try:
+            hd, kids = head_and_kids(x)
+        except Exception:
+            return
+        if hd.startswith("(HOther"):
+            flags["other"].add(type(x).__name__)
+        onpath.add(id(x))
+        for k in kids:
+            go(k, depth + 1)
+        onpath.discard(id(x))
+
+    go(state, 0)
+    flags["other"] = sorted(flags["other"])
+    return flags
+
+
+_CFG_CACHE = {}
+
+
+def _fresh_state(src):
+    """Parse once per program; every run gets its own copy of the flow configs."""
+    import copy
+
+    from nemoguardrails.colang import parse_colang_file
+    from nemoguardrails.colang.v2_x.runtime.flows import State
+    from nemoguardrails.colang.v2_x.runtime.runtime import create_flow_configs_from_flow_list
+    from nemoguardrails.colang.v2_x.runtime.statemachine import initialize_state
+
+    if src not in _CFG_CACHE:
+        _CFG_CACHE[src] = create_flow_configs_from_flow_list(
+            parse_colang_file(filename="", content=src, include_source_mapping=True, version="2.x")["flows"])
+    state = State(flow_states=[], flow_configs=copy.deepcopy(_CFG_CACHE[src]))
+    initialize_state(state)
+    return state
+
+
+def _run_trace(src, events, cut, mode, pick):
+    """Run `events` on a fresh state; at `cut` apply `mode`:
+       live     : nothing
+       restored : json_to_state(state_to_json(s))
+       aged     : the clock advances by 6 s before every later event
+       aged+restored : both.
+    Returns (list of canonical outputs per step AFTER the cut, info)."""
+    import random as _random
+
+    from harness import v2util
+    from nemoguardrails.colang.v2_x.runtime import serialization as ser
+
+    _Clock.offset = 0.0
+    _random.choice = (lambda seq: seq[0]) if pick == 0 else (lambda seq: seq[-1])
+    info = {}
+    ren = _Renamer()
+    started = []   # action uids in order of their Start event
+    state = _fresh_state(src)
+    outs = []
+
+    def step(st, ev, record):
+        ev = dict(ev)
+        if isinstance(ev.get("action_uid"), str) and ev["action_uid"].startswith("@"):
+            k = int(ev["action_uid"][1:])
+            ev["action_uid"] = started[k] if k < len(started) else "none"
+        try:
+            st = v2util.step(st, ev) if ev.get("type") != "__start__" else v2util.start_main(st)
+            o = list(st.outgoing_events)
+            for e in o:
+                if isinstance(e, dict) and str(e.get("type", "")).startswith("Start") and "action_uid" in e:
+                    started.append(e["action_uid"])
+            res = ren.canon(o)
+        except BaseException as ex:  # noqa
+            if isinstance(ex, (KeyboardInterrupt, SystemExit)):
+                raise
+            res = {"__raised__": type(ex).__name__}
+        if record:
+            outs.append(res)
+        return st
+
+    seq = [{"type": "__start__"}] + list(events)
+    for i, ev in enumerate(seq):
+        if i == cut:
+            bad = _index_invariant(state)
+            if bad:
+                info["index_invariant_violated"] = [list(b) for b in bad[:3]]
+            if "restored" in mode:
+                try:
+                    js = ser.state_to_json(state)
+                except BaseException as ex:  # noqa
+                    info["save_raised"] = type(ex).__name__ + ": " + str(ex)[:120]
+                    info["shape"] = _shape_flags(state)
+                    return None, info
+                try:
+                    state = ser.json_to_state(js)
+                except BaseException as ex:  # noqa
+                    info["restore_raised"] = type(ex).__name__ + ": " + str(ex)[:120]
+                    return None, info
+            if mode == "live":
+                info["shape"] = _shape_flags(state)
+                info["n_flows"] = len(state.flow_states)
+                info["n_done"] = sum(1 for f in state.flow_states.values() if f.status.name in ("FINISHED", "STOPPED"))
+                info["n_actions"] = len(state.actions)
+        if i >= cut and "aged" in mode:
+            _Clock.offset += 6.0
+        state = step(state, ev, i >= cut)
+    info["flows_after"] = len(state.flow_states)
+    return outs, info
+
+
+def worker_main():
+    """Child process: reads a job (JSON) from argv[1], writes results to argv[2]."""
+    import logging
+
+    logging.disable(logging.CRITICAL)
+    job = json.load(open(sys.argv[1]))
+    sys.path.insert(1, C.REPO)
+    _Clock.install()
+    results = []
+    t_end = time.time() + job.get("budget_s", 150)
+    for item in job["items"]:
+        src, pid_ = item["src"], item["id"]
+        try:
+            _fresh_state(src)
+        except Exception as ex:  # not a program of the language: not a case
+            results.append({"id": pid_, "skipped": "parse: " + type(ex).__name__})
+            continue
+        rec = {"id": pid_, "runs": 0, "diffs": [], "save_failures": [], "cuts": 0, "invariant": [], "aged_removed": 0,
+               "nontrivial_cuts": 0}
+        for hist in item["histories"]:
+            for cut in range(1, len(hist) + 2):       # cut before event index `cut` (after start + cut-1 events)
+                if time.time() > t_end:
+                    rec["truncated"] = True
+                    break
+                for cont in item["continuations"]:
+                    evs = hist[: cut - 1] + cont
+                    for pick in item.get("picks", [0]):
+                        live, li = _run_trace(src, evs, cut, "live", pick)
+                        rec["runs"] += 1
+                        if li.get("index_invariant_violated"):
+                            rec["invariant"].append({"history": hist[: cut - 1], "bad": li["index_invariant_violated"]})
+                        nontriv = li.get("n_flows", 0) >= 2 and (li.get("n_actions", 0) > 0 or li.get("n_done", 0) > 0)
+                        for mode in ("restored", "aged", "aged+restored"):
+                            got, gi = _run_trace(src, evs, cut, mode, pick)
+                            rec["runs"] += 1
+                            if got is None:
+                                rec["save_failures"].append({"history": hist[: cut - 1], "mode": mode, "info": gi,
+                                                             "shape": gi.get("shape") or li.get("shape")})
+                                continue
+                            if mode == "aged" and gi.get("flows_after", 0) < li.get("flows_after", 0):
+                                rec["aged_removed"] += 1
+                            if got != live:
+                                rec["diffs"].append({"history": hist[: cut - 1], "continuation": cont, "mode": mode, "pick": pick,
+                                                     "live": live, "other": got, "shape": li.get("shape")})
+                        rec["cuts"] += 1
+                        rec["nontrivial_cuts"] += 1 if nontriv else 0
+        # keep the result small
+        rec["diffs"] = rec["diffs"][:6]
+        rec["save_failures"] = rec["save_failures"][:6]
+        rec["invariant"] = rec["invariant"][:3]
+        results.append(rec)
+    json.dump(results, open(sys.argv[2], "w"), default=repr)
+
+
+# ---------------------------------------------------------------------------------------
+# X3: the real _clean_up_state against V2/Cleanup.v on abstracted real states
+
+PREAMBLE_CL = """From Coq Require Import ZArith List String.
+From NG Require Import V2.Cleanup V2.Cleanup_now V2.CleanupRun.
+Import ListNotations.
+Open Scope string_scope.
+Open Scope Z_scope.
+"""
+
+
+def _abstract_state(state, base, actnum):
+    """Real State -> term of V2/Cleanup.v `state` (actions are opaque numbers, clock in microseconds)."""
+    def us(dt):
+        d = dt - base
+        return d.days * 86400 * 10**6 + d.seconds * 10**6 + d.microseconds
+
+    rows = []
+    for uid, fs in state.flow_states.items():
+        heads = clist([f"({cstr(h)}, {clist([C.coq_Z(ftoken(float(x))) for x in hd.matching_scores])})"
+                       for h, hd in fs.heads.items()])
+        par = "None" if fs.parent_uid is None else f"(Some {cstr(fs.parent_uid)})"
+        rows.append(f"({cstr(uid)}, mkInst {cstr(fs.flow_id)} {cstr(fs.status.name)} {C.coq_Z(us(fs.status_updated))} "
+                    f"{C.coq_Z(int(fs.activated))} {par} {clist([cstr(c) for c in fs.child_flow_uids])} "
+                    f"{clist([cstr(a) for a in fs.action_uids])} {heads} 0)")
+    byf = clist([f"({cstr(k)}, {clist([cstr(f.uid) for f in v])})" for k, v in state.flow_id_states.items()])
+    acts = []
+    for k, a in state.actions.items():
+        actnum.setdefault(id(a), len(actnum))
+        acts.append(f"({cstr(k)}, {actnum[id(a)]})")
+    return f"(mkState {clist(rows)} {byf} {clist(acts)} 0)"
+
+
+def _x3_cases(src, events, rng_seed, limit):
+    """Run the program with a clock that advances irregularly; at every point evaluate the real
+    _clean_up_state on a copy for several clock values."""
+    import copy
+    import datetime as dtm
+    import random as _random
+
+    from harness import v2util
+    from nemoguardrails.colang.v2_x.runtime import statemachine as sm
+
+    rr = _random.Random(rng_seed)
+    _random.choice = lambda seq: seq[0]
+    _Clock.offset = 0.0
+    base = sm.datetime.now()
+    state = _fresh_state(src)
+    cases = []
+    started = []
+    seq = [{"type": "__start__"}] + list(events)
+    for ev in seq:
+        ev = dict(ev)
+        if isinstance(ev.get("action_uid"), str) and ev["action_uid"].startswith("@"):
+            k = int(ev["action_uid"][1:])
+            ev["action_uid"] = started[k] if k < len(started) else "none"
+        try:
+            state = v2util.start_main(state) if ev["type"] == "__start__" else v2util.step(state, ev)
+        except BaseException:  # noqa
+            break
+        for e in state.outgoing_events:
+            if isinstance(e, dict) and str(e.get("type", "")).startswith("Start") and "action_uid" in e:
+                started.append(e["action_uid"])
+        _Clock.offset += rr.choice([0.0, 0.5, 2.0, 3.0, 4.999999, 5.000001])
+        for delta in (0.0, rr.choice([1.0, 2.5, 5.0, 5.000001, 7.0]), 100.0):
+            if len(cases) >= limit:
+                return cases
+            saved = _Clock.offset
+            _Clock.offset = saved + delta
+            now = sm.datetime.now() - base
+            now_us = now.days * 86400 * 10**6 + now.seconds * 10**6 + now.microseconds
+            st2 = copy.deepcopy(state)
+            actnum = {}
+            # number the actions on the copy (same objects before and after the clean-up)
+            before = _abstract_state(st2, base, actnum)
+            n_before = len(st2.flow_states)
+            try:
+                sm._clean_up_state(st2)
+                after = "(Some " + _abstract_state(st2, base, actnum) + ")"
+            except Exception:
+                after = "None"
+            _Clock.offset = saved
+            cases.append({"term": f"({C.coq_Z(now_us)}, {before}, {after})", "removed": n_before - len(st2.flow_states),
+                          "flows": n_before})
+    return cases
+
+
+def x3_worker_main():
+    import logging
+
+    logging.disable(logging.CRITICAL)
+    job = json.load(open(sys.argv[1]))
+    sys.path.insert(1, C.REPO)
+    _Clock.install()
+    res = []
+    for it in job["items"]:
+        try:
+            res += _x3_cases(it["src"], it["events"], it["seed"], it["limit"])
+        except Exception as ex:  # noqa
+            res.append({"error": type(ex).__name__ + ": " + str(ex)[:200]})
+    json.dump(res, open(sys.argv[2], "w"))
+
+
+# ---------------------------------------------------------------------------------------
+# through LLMRails.generate_async(state=...)
+
+RAILS_PROGRAMS = {
+    "regex-var-two-turns": '''
+import core
+
+flow main
+  $r = regex("h.")
+  $seen = {"a", "b"}
+  user said "hi"
+  bot say "Hello!"
+  user said $r
+  bot say "Hello again!"
+  user said "bye"
+  bot say "Bye {len($seen)}"
+''',
+    "flow-ref-and-counter": '''
+import core
+
+flow greet $names
+  user said "hi"
+  bot say "Hi {len($names)}"
+
+flow main
+  $l = ["x", "y"]
+  start greet $l as $g
+  match $g.Finished()
+  bot say "done {$g.flow_id}"
+  user said "hi"
+  bot say "second"
+  user said "hi"
+  bot say "third"
+''',
+}
+
+
+def rails_worker_main():
+    """Child process: for each v2 config, three turns through generate_async, once passing the
+    serialised state of the previous turn (restored on every turn) and once passing one live State
+    object; the bot responses must agree."""
+    import asyncio
+    import logging
+
+    logging.disable(logging.CRITICAL)
+    sys.path.insert(1, C.REPO)
+    sys.path.insert(2, os.path.join(C.REPO, "tests"))
+    from nemoguardrails import LLMRails, RailsConfig
+    from nemoguardrails.colang.v2_x.runtime.serialization import json_to_state
+    from utils import FakeLLM
+
+    out = []
+    for name, co in RAILS_PROGRAMS.items():
+        rec = {"name": name}
+        try:
+            config = RailsConfig.from_content(co, 'colang_version: "2.x"\n')
+            turns = ["hi", "hi", "bye", "hi"]
+
+            async def drive(live):
+                rails = LLMRails(config=config, llm=FakeLLM(responses=[]))
+                resp = []
+                r = await rails.generate_async(messages=[{"role": "user", "content": turns[0]}], state={})
+                resp.append(r.response)
+                st = r.state
+                if live:
+                    st = json_to_state(st["state"])
+                for t in turns[1:]:
+                    r = await rails.generate_async(messages=[{"role": "user", "content": t}], state=st)
+                    resp.append(r.response)
+                    if not live:
+                        st = r.state
+                return resp
+
+            a = asyncio.run(drive(False))
+            b = asyncio.run(drive(True))
+            rec["restored_each_turn"] = a
+            rec["live"] = b
+            rec["same"] = (a == b)
+            rec["nonempty"] = any(x for x in a)
+        except BaseException as ex:  # noqa
+            rec["raised"] = type(ex).__name__ + ": " + str(ex)[:200]
+        out.append(rec)
+    json.dump(out, open(sys.argv[1], "w"), default=repr)
+
+
+# ---------------------------------------------------------------------------------------
+# orchestration
+
+
+def _spawn(entry, args, timeout_s, extra_env=None):
+    env = dict(os.environ)
+    env.update(C.impl_env())
+    env["NEMO_GUARDRAILS_VERIF_MAX_STEPS"] = "20000"
+    if extra_env:
+        env.update(extra_env)
+    return subprocess.Popen(["timeout", str(timeout_s), C.PY, "-c", f"from harness import c11; c11.{entry}()"] + args,
+                            cwd=C.VERIF, env=env, stdout=subprocess.DEVNULL, stderr=subprocess.PIPE, text=True)
+
+
+def classify_save(info, shape):
+    msg = info.get("save_raised") or ""
+    if msg:
+        if "re.Pattern" in msg:
+            return "unserializable-value:Pattern"
+        m = re.search(r"Unhandled type in encode_to_dict: <class '([\w.]+)'>", msg)
+        if m:
+            return "unserializable-value:" + m.group(1).split(".")[-1]
+        if msg.startswith("RecursionError"):
+            return "cyclic-reference" if (shape or {}).get("cyclic") else "recursion-error"
+        if "not JSON serializable" in msg:
+            return "unserializable-action-arguments"
+        return "save-raised:" + msg.split(":")[0]
+    return "restore-raised:" + (info.get("restore_raised") or "?").split(":")[0]
+
+
+def classify_diff(d):
+    shape = d.get("shape") or {}
+    if d["mode"] == "aged":
+        return "aged-state-behaves-differently"
+    if shape.get("shared_list"):
+        return "shared-list-copied"
+    if shape.get("nonstr_keys"):
+        return "non-string-dict-keys"
+    return "restored-state-behaves-differently"
+
+
+def _histories(rng, alphabet, n, maxlen):
+    return [[rng.choice(alphabet) for _ in range(rng.randint(1, maxlen))] for _ in range(n)]
+
+
+def run(tier, seed, replay=None):
+    import tempfile
+
+    out = C.Outcome(PID, tier, seed)
+    rng = random.Random(seed * 1000003 + 11)
+    b = C.build_and_audit(PID, GEN)
+    C.proof_coverage(out, b, "make theories/Props/C11.vo && coqc Props/C11.v (Print Assumptions)")
+    for br in b["broken"]:
+        out.add_broken(br, b["log"])
+    with C.BuildLock():
+        okm, logm = C.coq_make(["theories/V2/SerialRun.vo", "theories/V2/CleanupRun.vo"])
+    if not okm:
+        out.add_broken("coq:theories/V2/SerialRun.v|CleanupRun.v", logm)
+
+    quick = tier == "quick"
+    tmp = tempfile.mkdtemp(prefix="c11_", dir=C.BUILD)
+    A = EVENT_ALPHABET
+    conts1 = [[a] for a in A]
+    conts2 = [[a, b2] for a in A[:5] for b2 in A[:5]]
+    conts3 = [[a, b2, c] for a in A[:4] for b2 in A[:4] for c in A[:4]]
+
+    # ---- X2 jobs (child processes, started first)
+    stats = {}
+    items = []
+    if replay:
+        rp = json.load(open(replay))
+        rp = rp.get("replay", rp)
+        if rp.get("kind") == "x2":
+            items.append({"id": "replay", "src": rp["src"], "histories": [rp["history"] + [A[2]]],
+                          "continuations": [rp["continuation"]], "picks": [rp.get("pick", 0)]})
+    else:
+        for name, src in PROBES.items():
+            items.append({"id": "probe:" + name, "src": src, "histories": [[A[2]], [A[0], A[2], A[4]]],
+                          "continuations": conts1 + conts2[:10], "picks": [0]})
+        corpus_dir = os.path.join(C.VERIF, "corpus", PID)
+        if os.path.isdir(corpus_dir):
+            for fn in sorted(os.listdir(corpus_dir)):
+                if fn.endswith(".json"):
+                    d = json.load(open(os.path.join(corpus_dir, fn)))
+                    if d.get("kind") == "x2":
+                        items.append({"id": "corpus:" + fn, "src": d["src"], "histories": [d["history"] + [A[2]]],
+                                      "continuations": [d["continuation"]], "picks": [d.get("pick", 0)]})
+        n_prog = 96 if quick else 640
+        for i in range(n_prog):
+            src = gen_program(rng, stats)
+            cs = list(conts1) + rng.sample(conts2, 8 if quick else 25) + (rng.sample(conts3, 3 if quick else 20))
+            items.append({"id": "gen%d" % i, "src": src, "histories": _histories(rng, A, 2 if quick else 3, 3 if quick else 4),
+                          "continuations": cs, "picks": [0] if i % 4 else [0, 1]})
+    nw = min(C.NPROC, max(1, len(items)))
+    budget = 110 if quick else 900
+    procs = []
+    for w in range(nw):
+        job = {"items": items[w::nw], "budget_s": budget}
+        jp, rpth = os.path.join(tmp, f"job{w}.json"), os.path.join(tmp, f"res{w}.json")
+        json.dump(job, open(jp, "w"))
+        procs.append((_spawn("worker_main", [jp, rpth], budget + 120), rpth, job))
+    # X3 + rails workers
+    x3_items = []
+    if not replay:
+        for i in range(24 if quick else 120):
+            src = gen_program(rng, {})
+            x3_items.append({"src": src, "events": [rng.choice(A) for _ in range(6)], "seed": rng.randrange(10**6), "limit": 14})
+        for name in ("finished-child-then-idle", "two-flows-one-action", "activated-restarts"):
+            x3_items.append({"src": PROBES[name], "events": [A[0], A[2], A[4], A[3], A[0], A[2]], "seed": 1, "limit": 21})
+    x3p = None
+    if x3_items:
+        jp, x3res = os.path.join(tmp, "x3job.json"), os.path.join(tmp, "x3res.json")
+        json.dump({"items": x3_items}, open(jp, "w"))
+        x3p = _spawn("x3_worker_main", [jp, x3res], 300 if quick else 900)
+    railsres = os.path.join(tmp, "rails.json")
+    railsp = None if replay else _spawn("rails_worker_main", [railsres], 300)
+
+    # ---- X1 (this process): generated graphs from the real classes
+    kinds = {}
+    terms, infos = [], []
+    n_x1 = 0 if replay else (150 if quick else 1500)
+    seen_hash = set()
+    x1_nontrivial = 0
+    oracle_x1 = []
+    for i in range(n_x1):
+        if i % 4 == 0:
+            root, mode = gen_value(rng, 3, []), 0
+        else:
+            root, mode = gen_state_graph(rng, kinds), 1
+        try:
+            term, info, decoded = x1_case(root, mode)
+        except Unrenderable as ex:
+            kinds["unrenderable"] = kinds.get("unrenderable", 0) + 1
+            continue
+        terms.append(term)
+        infos.append(info)
+        hsh = C.canon_hash(term)
+        if hsh not in seen_hash:
+            seen_hash.add(hsh)
+            if info["nodes"] >= 15 and "__ref_count" in term:
+                x1_nontrivial += 1
+    x1_dis = 0
+    if okm and terms:
+        bools, err = C.run_cases(PID + "_x1", PREAMBLE, terms, "check_case", shard=12)
+        if err:
+            out.add_broken("correspondence:C11-serial(coqc)", err)
+        else:
+            bad = [i for i, ok in enumerate(bools) if not ok]
+            x1_dis = len(bad)
+            if bad:
+                i = min(bad, key=lambda k: len(terms[k]))
+                model = C.eval_term(PID + "_x1", PREAMBLE, "show_case " + terms[i])
+                out.add_broken("correspondence:C11-serial",
+                               f"{len(bad)} disagreements between serialization.py and V2/Serial.v; smallest case: {infos[i]} "
+                               f"term={terms[i][:1500]} model={model[:1500]}")
+
+    # ---- collect X3
+    x3_n = x3_removed = 0
+    if x3p is not None:
+        _, err = x3p.communicate()
+        try:
+            x3cases = json.load(open(x3res))
+        except Exception as ex:
+            x3cases = []
+            out.add_broken("correspondence:C11-cleanup(worker)", f"{ex}: {err[-1500:]}")
+        errs = [c for c in x3cases if "error" in c]
+        x3cases = [c for c in x3cases if "term" in c]
+        if errs and not x3cases:
+            out.add_broken("correspondence:C11-cleanup(worker)", str(errs[:2]))
+        x3_n = len(x3cases)
+        x3_removed = sum(1 for c in x3cases if c["removed"] > 0)
+        if okm and x3cases:
+            bools, err = C.run_cases(PID + "_x3", PREAMBLE_CL, [c["term"] for c in x3cases], "check_cleanup", shard=40)
+            if err:
+                out.add_broken("correspondence:C11-cleanup(coqc)", err)
+            else:
+                bad = [c for c, ok in zip(x3cases, bools) if not ok]
+                if bad:
+                    c = min(bad, key=lambda c: len(c["term"]))
+                    model = C.eval_term(PID + "_x3", PREAMBLE_CL, "let '(n, s, e) := " + c["term"] + " in cleanup_now n s")
+                    out.add_broken("correspondence:C11-cleanup",
+                                   f"{len(bad)} disagreements between _clean_up_state and V2/Cleanup.v; smallest: {c['term'][:1500]} model={model[:1200]}")
+
+    # ---- collect X2
+    x2 = {"programs": 0, "skipped": 0, "runs": 0, "cuts": 0, "nontrivial_cuts": 0, "aged_removed": 0, "truncated": 0}
+    inv_bad = []
+    for p, rpth, job in procs:
+        _, err = p.communicate()
+        try:
+            res = json.load(open(rpth))
+        except Exception as ex:
+            out.add_broken("behavioural:C11-worker", f"worker died (rc={p.returncode}): {err[-1200:]}")
+            continue
+        srcs = {it["id"]: it["src"] for it in job["items"]}
+        for r in res:
+            if "skipped" in r:
+                x2["skipped"] += 1
+                continue
+            x2["programs"] += 1
+            for k in ("runs", "cuts", "nontrivial_cuts", "aged_removed"):
+                x2[k] += r.get(k, 0)
+            x2["truncated"] += 1 if r.get("truncated") else 0
+            for f in r["save_failures"]:
+                sig = classify_save(f["info"], f.get("shape"))
+                what = (f["info"].get("save_raised") or f["info"].get("restore_raised") or "")[:140]
+                out.findings.append(C.Finding(sig, f"state_to_json/json_to_state raises on a reachable state: {what}",
+                                              {"kind": "x2", "program": r["id"], "src": srcs[r["id"]], "history": f["history"],
+                                               "continuation": [], "mode": f["mode"], "observed": what,
+                                               "required": "saving and restoring succeeds at every cut point"}))
+            for d in r["diffs"]:
+                sig = classify_diff(d)
+                out.findings.append(C.Finding(sig, f"{d['mode']} state reacts differently from the live one",
+                                              {"kind": "x2", "program": r["id"], "src": srcs[r["id"]], "history": d["history"],
+                                               "continuation": d["continuation"], "mode": d["mode"], "pick": d["pick"],
+                                               "live_outputs": d["live"], "other_outputs": d["other"],
+                                               "required": "same outgoing events up to fresh identifiers"}))
+            inv_bad += r["invariant"]
+    if inv_bad:
+        out.add_broken("assumption:matcher-index-lists-only-live-heads",
+                       "hypothesis of C11_cleanup_commutes_partial violated on a real state: " + json.dumps(inv_bad[:2])[:1500])
+
+    # ---- rails
+    rails_info = []
+    if railsp is not None:
+        _, err = railsp.communicate()
+        try:
+            rails_info = json.load(open(railsres))
+        except Exception as ex:
+            out.add_broken("behavioural:C11-rails-worker", f"{ex}: {err[-1200:]}")
+        for r in rails_info:
+            if r.get("raised"):
+                msg = r["raised"]
+                sig = classify_save({"save_raised": msg.replace("Exception: ", "Exception: ", 1)}, None) if "encode_to_dict" in msg or "JSON" in msg else "generate-async-raised"
+                out.findings.append(C.Finding(sig, f"LLMRails.generate_async raises for a Colang 2 config: {msg[:140]}",
+                                              {"kind": "rails", "config": r["name"], "colang": RAILS_PROGRAMS[r["name"]], "observed": msg}))
+            elif not r.get("same"):
+                out.findings.append(C.Finding("restored-state-behaves-differently",
+                                              "generate_async(state=<json>) answers differently from the live state",
+                                              {"kind": "rails", "config": r["name"], "colang": RAILS_PROGRAMS[r["name"]],
+                                               "restored_each_turn": r.get("restored_each_turn"), "live": r.get("live")}))
+
+    enc_hist, dec_hist = {}, {}
+    for inf in infos:
+        enc_hist[inf["enc"].split(":")[0]] = enc_hist.get(inf["enc"].split(":")[0], 0) + 1
+        dec_hist[inf["dec"].split(":")[0]] = dec_hist.get(inf["dec"].split(":")[0], 0) + 1
+    out.coverage.update({
+        "evaluations": len(terms) + x3_n + x2["runs"],
+        "distinct_nontrivial": x1_nontrivial + x2["nontrivial_cuts"] + x3_removed,
+        "rule": "X1: distinct generated object graphs (by hash of the case term) with >=15 objects and at least one shared "
+                "object written as __id/ref; X2: (program, history prefix, continuation, pick) combinations whose state at the "
+                "cut point has >=2 flow instances and a pending action or a finished instance; X3: clean-up cases in which at "
+                "least one instance is removed",
+        "samples": [{"x1": infos[:2]}, {"x2_program": items[len(PROBES)]["src"] if len(items) > len(PROBES) else None},
+                    {"rails": [{k: r.get(k) for k in ("name", "same", "raised")} for r in rails_info]}],
+        "input_distribution": {"x1_graph_kinds": kinds, "x1_encoder_results": enc_hist, "x1_decoder_results": dec_hist,
+                               "x2_statement_mix": stats, "x2": x2, "x3_cases": x3_n, "x3_cases_with_removal": x3_removed,
+                               "probe_programs": sorted(PROBES)},
+        "traces_validated_against_impl": len(terms) + x3_n,
+        "correspondence_disagreements": x1_dis,
+        "oracle_violations": len(out.findings),
+    })
+    out.assumptions += [
+        "json.dumps/json.loads, pydantic model_dump/model_validate (RailsConfig = opaque token), datetime.isoformat/fromisoformat and re.compile are oracles",
+        "set iteration order is not part of the state (members of a rebuilt set are compared in the order of the original)",
+        "recursion limit abstracted to a depth bound (model LIMIT=150; generated graphs are shallower, cyclic ones exceed any bound)",
+        "dict keys: str/int/bool/None (float and tuple keys not generated); strings as UTF-8 bytes",
+        "the re-creation of head callbacks is modelled and tied by X1 (mode 1) and the translator, the round-trip theorem relates callbacks to None",
+        "behavioural claim (same outgoing events after restore / after clean-up) is validated by exploration: continuations of length <=3 over 7 events, random.choice patched to first/last, clock substituted in statemachine/flows",
+        "C11_cleanup_commutes_partial assumes the matcher index lists only heads of instances that are not done: checked on every real state at every cut point",
+    ]
+    if tier == "thorough" and b["ok"]:
+        ok, log = C.coqchk(PID, b["files"])
+        out.coverage["coqchk"] = "ok" if ok else "FAILED"
+        if not ok:
+            out.add_broken("coqchk", log)
+    import shutil
+
+    shutil.rmtree(tmp, ignore_errors=True)
+    return C.finish(out)
